@@ -190,3 +190,127 @@ def spec_client_trust_roots(ck):
     ck.plans.append(lambda ob: ('tls', {'driver': 'ca_without_certificates', 'args': {}}, lambda o: o.get('store_built') is True and (o.get('roots_trusted') or 0) > 0)
                     if (ob.target or '') == 'TlsClientConfig::root_store' else None)
     ck.bounds['tls-client-roots'] = 'ca absent / configured; the ca file unreadable or holding 0..2 certificates, each usable as a trust anchor or not'
+
+
+def client_config_builders(db):
+    pat = ('WantsVerifier>>::with_custom_certificate_verifier', 'WantsVerifier>>::with_root_certificates', 'DangerousClientConfig::<\'_>::set_certificate_verifier',
+           'DangerousClientConfig::set_certificate_verifier')
+    return [f for f in db.fns if any(p in ln for ln in f.raw_lines for p in pat) and any('ClientConfig' in ln for ln in f.raw_lines)]
+
+
+def spec_client_verifier_policy(ck):
+    """a connector that uses TLS without the `insecure` flag verifies its upstream: every function that builds a rustls ClientConfig
+    from a TlsClientConfig installs the accept-anything verifier (TlsClientConfig::insecure_verifier) only when `insecure` is set;
+    otherwise the certificate is verified against the roots root_store() returns."""
+    fns = [f for f in client_config_builders(ck.db) if len(f.params) >= 1 and any('TlsClientConfig' in ty for _, ty in f.params)]
+    fields = ck.si.structs.get('TlsClientConfig', [])
+    if not fns or 'insecure' not in fields:
+        ck.add('C07/tls/client-config-builders', 'undecided', 'anchor_missing: %d functions build a rustls ClientConfig from a TlsClientConfig' % len(fns))
+        return
+    label = 'C07/tls/the-accept-anything-verifier-is-installed-only-when-insecure-is-set'
+    for fn in fns:
+        ck.target(fn)
+        ex = ck.engine(loop_bound=4, call_depth=8)
+        ex.benign_havoc = harness.IRRELEVANT
+        ex.no_inline = [re.compile(r'root_store$|load_certs|load_keys|TlsClientAuthConfig::certs$|insecure_verifier$')]
+        st = State()
+        insecure = z3.Bool('insecure')
+        has_auth = z3.BitVec('client_auth_present', 64)
+        ex.assume(st, z3.ULT(has_auth, BV(2, 64)))
+        has_ca = z3.BitVec('ca_configured', 64)
+        ex.assume(st, z3.ULT(has_ca, BV(2, 64)))
+        cfg = Agg('TlsClientConfig', dict((i, (Bool(insecure) if n == 'insecure' else
+                                               (Agg('Option', {}, has_auth, {1: {0: Opaque('TlsClientAuthConfig', 'auth')}}, ex.si.enums['Option']) if n == 'auth' else
+                                                (Agg('Option', {}, has_ca, {1: {0: Opaque('PathBuf', 'ca-path')}}, ex.si.enums['Option']) if n == 'ca' else
+                                                 (C.mk_option(ex, None) if n == 'populated' else (Bool(z3.Bool('cfg_' + n)) if n == 'disable_early_data' else Opaque(n, 'cfg_' + n)))))))
+                                          for i, n in enumerate(fields)))
+
+        def kind_of(ctx, v):
+            for _ in range(4):
+                if isinstance(v, Ref):
+                    v = ctx.ex.deref(ctx.st, v)
+            if isinstance(v, Agg) and v.name == 'ServerCertVerifier':
+                return concrete(v.fields[0].t)
+            return None
+
+        def accept_all(ctx):
+            return Ref(ctx.st.alloc(Agg('ServerCertVerifier', {0: Int(BV(0, 8), 8, False)})), ())
+
+        def webpki(ctx):
+            return Agg('ServerCertVerifier', {0: Int(BV(1, 8), 8, False)})
+
+        def custom(ctx):
+            ctx.st.trace.append(('client-verifier', kind_of(ctx, ctx.args[1])))
+            return Agg('ConfigBuilder', {})
+
+        def roots(ctx):
+            ctx.st.trace.append(('client-verifier', 1))
+            return Agg('ConfigBuilder', {})
+
+        def set_verifier(ctx):
+            ctx.st.trace.append(('client-verifier', kind_of(ctx, ctx.args[1])))
+            return UNIT
+
+        def built(ctx):
+            ctx.st.trace.append(('client-config-built',))
+            return Agg('rustls::ClientConfig', {})
+
+        def built_result(ctx):
+            from values import fresh_name
+            ctx.st.trace.append(('client-config-built',))
+            okb = z3.Bool(fresh_name('client_cert_and_key_fit'))
+            return Agg('Result', {}, simp(z3.If(okb, BV(0, 64), BV(1, 64))), {0: {0: Agg('rustls::ClientConfig', {})}, 1: {0: Opaque('rustls::Error', 'e')}}, ctx.ex.si.enums['Result'])
+
+        def sym_result(what):
+            def f(ctx):
+                from values import fresh_name
+                okb = z3.Bool(fresh_name(what + '_ok'))
+                return Agg('Result', {}, simp(z3.If(okb, BV(0, 64), BV(1, 64))), {0: {0: Opaque(what, what)}, 1: {0: Opaque('easy_error::Error', 'e')}}, ctx.ex.si.enums['Result'])
+            return f
+        ov = [(r'insecure_verifier$', accept_all), (r'WebPkiVerifier::new$', webpki),
+              (r'rustls::ClientConfig::builder$', lambda ctx: Agg('ConfigBuilder', {})), (r'ClientConfig, WantsCipherSuites>::with_safe_defaults$', lambda ctx: Agg('ConfigBuilder', {})),
+              (r'ClientConfig, WantsVerifier>>::with_custom_certificate_verifier$', custom), (r'ClientConfig, WantsVerifier>>::with_root_certificates$', roots),
+              (r'DangerousClientConfig(?:::<.*>)?::set_certificate_verifier$', set_verifier), (r'ClientConfig::dangerous$', lambda ctx: Agg('DangerousClientConfig', {0: ctx.args[0]})),
+              (r'ClientConfig, Wants[A-Za-z]*ClientCert>>::with_no_client_auth$', built), (r'ClientConfig, Wants[A-Za-z]*ClientCert>>::with_single_cert$', built_result),
+              (r'TlsClientConfig::root_store$', sym_result('RootCertStore')), (r'TlsClientAuthConfig::certs$', sym_result('certs'))]
+        for rx, f in ov:
+            ex.overrides.append((re.compile(rx), f))
+        ex.inputs = {'insecure': insecure, 'client_auth_present': has_auth, 'ca_configured': has_ca}
+        args = []
+        for (n_, ty) in fn.params:
+            if 'TlsClientConfig' in ty:
+                args.append(Ref(st.alloc(cfg), (), 'mut' in ty))
+            elif ty.strip() == 'bool':
+                args.append(Bool(z3.Bool('flag_' + str(n_))))
+            else:
+                args.append(Opaque(ty.strip(), 'arg'))
+        finals = ex.call_fn(st, fn, args)
+        n = 0
+        for s in finals:
+            if s.status != 'returned' or _is_err_concrete(s.ret):
+                continue
+            ok, _ = _ok_payload(s.ret)
+            ver = [e[1] for e in s.trace if e[0] == 'client-verifier']
+            if not ver or ('client-config-built',) not in s.trace:
+                continue
+            n += 1
+            s.env['inputs'] = dict(s.env.get('inputs', {}), builder=Bytes.from_py(fn.name.encode(), 'str'))
+            ex.prove(s, label, z3.Implies(z3.And(ok, z3.BoolVal(ver[-1] != 1)), insecure))
+        if not n:
+            ck.add('C07/tls/client-verifier/reachability', 'vacuous', '%s never built a client configuration in the model' % fn.name)
+        for f in ex.findings:
+            if not hasattr(f, 'target'):
+                f.target = 'client config: ' + fn.name
+        ck.absorb(ex, 'client config: ' + fn.name, finals)
+    ck.plans.append(_client_policy_replay_plan)
+    ck.bounds['tls-client-verifier'] = 'every function that builds a rustls ClientConfig from a TlsClientConfig (%s): insecure on / off, client certificate configured or not, files load or not' % ', '.join(f.name.split('::')[-1] for f in fns)
+
+
+def _client_policy_replay_plan(ob):
+    t = ob.target or ''
+    if not t.startswith('client config: '):
+        return None
+    if 'quic' in t:
+        cases = [{'driver': 'quic_server_cert_verification', 'args': {'insecure': i, 'ca': c}} for i, c in ((False, 'none'), (False, 'other'), (False, 'test-ca'), (True, 'none'))]
+        return 'quic', cases, lambda o: o.get('insecure') is False and o.get('ca') != 'test-ca' and o.get('exchanged') is True
+    return None
